@@ -629,3 +629,5 @@ MUTANTS = [
 
 RENAME_FUNCS = [(F, 'pitches_to_chord_symbol'), (F, '_degrees_to_modifications'), (F, '_largest_chord_kind_from_relative_pitches'),
                 (F, '_largest_chord_kind_from_degrees'), (F, 'chord_symbol_pitches'), (F, 'chord_symbol_quality'), (F, '_add_scale_degree')]
+
+EXPLANATION += (' Location-independent additions: VOCAB/compound-boundary, VOCAB/addless-compound-only, VOCAB/degree-identity, DUP/groupby-sorted, PITCH/one-pitch-per-degree; TAB/quality also reads a table form.')
